@@ -10,6 +10,11 @@ from .c03 import spec_matches
 
 MAPS = [None, "p.Quote => blockquote > p:fresh\ncomment-reference => sup", "this is not a mapping\np.Heading1 => h1\nthis is not a mapping\n!!",
         "p[style-name^='Intense'] => blockquote > p:fresh\nr.Strong => strong\nr.Emph => em\np.ListParagraph => ul > li:fresh\np.NoName => p.nn:fresh\nr.Hyperlink => span\nr.FootnoteReference =>\ntable.Fancy => table.f"]
+# lines that the documented grammar (matcher, whitespace, =>, optional whitespace, path, end of line) does not produce:
+# plain nonsense, and READABLE mappings followed by something that cannot continue a path
+UNREADABLE = ["this is not a mapping", "!!", "p.Aside => div.aside:frehs", "p.Aside => div.aside p", "p.Aside => div.aside:fresh !!!!",
+              "r.Code => code => pre", "p=> h1", "p.Aside => div.aside:fresh:fresh", "b => strong em", "p.Aside => div.aside >", "p[style-name='x'] => p ]"]
+READABLE = ["p.Aside => div.aside:fresh", "r.Code => code", "p.Aside =>div.aside", "b => strong", "p.Aside => div.aside > p:fresh"]
 CONTAINERS = {"w:ins", "w:object", "w:smartTag", "w:drawing", "v:group", "v:rect", "v:roundrect", "v:shape", "v:textbox", "w:txbxContent",
               "w:pict", "w:hyperlink", "w:tr", "w:tc", "w:sdtContent", "mc:Fallback"}
 IGNORED = {"office-word:wrap", "v:shadow", "v:shapetype", "w:annotationRef", "w:bookmarkEnd", "w:sectPr", "w:proofErr", "w:lastRenderedPageBreak",
@@ -236,6 +241,12 @@ def run(ctx):
         g = gen_xml.XGen(rng, anomalies=0.0 if clean else 0.5, dangling=0.0 if clean else 0.3, hostile=0.1, optional_absent=0.0)
         pkg = g.package()
         smt = None if clean else MAPS[i % len(MAPS)]
+        if smt is not None and not clean and rng.random() < 0.6:
+            extra = [rng.choice(UNREADABLE + READABLE) for _ in range(rng.randint(1, 4))]
+            lines = smt.split("\n") + extra
+            rng.shuffle(lines)
+            # a mapping for an element kind placed before the map's own lines could change which style wins: keep the extra lines last for p/r
+            smt = "\n".join([l for l in lines if l not in READABLE] + [l for l in lines if l in READABLE])
         if clean:
             # a style map that recognises every style the generator uses
             smt = "\n".join(["p.%s => p.s%d:fresh" % (sid, k) for k, (sid, _) in enumerate(PSTYLES)] +
@@ -256,10 +267,8 @@ def run(ctx):
             exp = Expect(pkg, sm_objs).all(smt is not None and "comment-reference" in smt)
             for l in (smt or "").split("\n"):
                 l = l.strip()
-                if l and not l.startswith("#"):
-                    from mammoth.styles.parser import read_style_mapping
-                    if read_style_mapping(l).value is None:
-                        exp.add("Did not understand this style mapping, so ignored it: " + l)
+                if l in UNREADABLE:      # unreadable by construction (documented grammar), not by asking the implementation
+                    exp.add("Did not understand this style mapping, so ignored it: " + l)
             exp = {B.sanitize(m) for m in exp}
             if len(got) != len(set(got)):
                 bad = "a warning is reported more than once"
@@ -308,6 +317,9 @@ def replay(ctx, rep):
     smt = r["options"]["style_map"]
     sm_objs = moptions.read_options({"style_map": smt or ""}).value["style_map"]
     exp = {B.sanitize(m) for m in Expect(pkg, sm_objs).all(smt is not None and "comment-reference" in smt)}
-    got = {m.message for m in html.messages if not m.message.startswith("Did not understand")}
+    for l in (smt or "").split("\n"):
+        if l.strip() in UNREADABLE:
+            exp.add(B.sanitize("Did not understand this style mapping, so ignored it: " + l.strip()))
+    got = {m.message for m in html.messages}
     print("replay: unexpected", sorted(got - exp), "missing", sorted(exp - got))
     return 0 if got == exp else 1
